@@ -76,6 +76,11 @@ func c09Main(r *run.Runner) {
 			}
 		}
 	}
+	for _, big := range []string{"18446744073709551615", "18446744073709551616", "99999999999999999999999", "9223372036854775808", "340282366920938463463374607431768211456"} {
+		for _, z := range []string{"0", "000", "00000000000000000000"} {
+			lits = append(lits, z+big, z+big+".0", z+big+"e0", "0x"+z+"ffffffffffffffff")
+		}
+	}
 	lits = append(lits, "9223372036854775807", "9223372036854775808", "18446744073709551615", "18446744073709551616", "0x7fffffffffffffff", "0x8000000000000000", "0xffffffffffffffff", "0x10000000000000000", "0x00000000000000000001")
 	bounds["boundary_literals"] = len(lits)
 	r.Sweep("boundary-literals", int64(len(lits)), func(w *run.Worker, item int64) {
